@@ -16,10 +16,10 @@ use std::panic::{self, AssertUnwindSafe};
 
 use verif_harness::{Rng, env_u64, seed};
 
-#[path = "/repo/src/bumping.rs"]
+#[path = "../../repo/src/bumping.rs"]
 mod bumping;
 
-#[path = "/repo/src/chunk/size_config.rs"]
+#[path = "../../repo/src/chunk/size_config.rs"]
 mod size_config;
 
 mod lib_helpers {
